@@ -175,6 +175,9 @@ func c16Run(env *core.Env, idx int) core.CaseResult {
 	var curLoader *loaderLog
 	sharedOpts := &spec.ExpandOptions{PathLoader: func(u string) (json.RawMessage, error) { return curLoader.load(u) }}
 	sharedBefore := snapOpts(sharedOpts)
+	// and one with the (canonical) location of the root, also reused from call to call: every version lives at the same URLs
+	sharedBaseOpts := &spec.ExpandOptions{RelativeBase: base.Root, PathLoader: func(u string) (json.RawMessage, error) { return curLoader.load(u) }}
+	sharedBaseBefore := snapOpts(sharedBaseOpts)
 	for step := 0; step < c16HistoryLen(env); step++ {
 		v := rng.Intn(3)
 		w, in := versions[v], ins[v]
@@ -201,6 +204,10 @@ func c16Run(env *core.Env, idx int) core.CaseResult {
 		wit := map[string]interface{}{"root": w.Root, "documents_of_this_call": w.Docs, "history": append([]string{}, history...), "step": step}
 		report := func(class, detail string) { res.Violate(class+" ["+kind+"]", detail, wit) }
 		opts := &spec.ExpandOptions{RelativeBase: w.Root, PathLoader: ld.load, AbsoluteCircularRef: rng.Intn(2) == 0}
+		if rng.Intn(2) == 0 {
+			opts = sharedBaseOpts
+			res.Count("calls-with-reused-options", 1)
+		}
 		before := snapOpts(opts)
 		root, _ := in.Docs[w.Root].(map[string]interface{})
 		pick := func(section string) string {
@@ -447,6 +454,10 @@ func c16Run(env *core.Env, idx int) core.CaseResult {
 		if after := snapOpts(opts); after != before {
 			report("caller-options-modified", fmt.Sprintf("%+v -> %+v", before, after))
 		}
+		if after := snapOpts(sharedBaseOpts); after != sharedBaseBefore {
+			report("caller-options-modified", fmt.Sprintf("reused option structure with a base location: %+v -> %+v", sharedBaseBefore, after))
+			sharedBaseOpts.RelativeBase = base.Root
+		}
 		if after := snapOpts(sharedOpts); after != sharedBefore {
 			report("caller-options-modified", fmt.Sprintf("reused option structure: %+v -> %+v", sharedBefore, after))
 			sharedOpts.RelativeBase = ""
@@ -475,7 +486,7 @@ func init() {
 		NumCases: c16NumCases,
 		Run:      c16Run,
 		Floors: func(env *core.Env) []string {
-			return []string{"call.ExpandSpec", "call.ExpandSchemaWithBasePath", "call.ResolveRefWithBase", "call.ExpandResponse", "call.ExpandParameter", "call.meta-schema", "call.ExpandSchema(typed-root)", "call.ExpandSpec(shared-options,no-base)",
+			return []string{"call.ExpandSpec", "call.ExpandSchemaWithBasePath", "call.ResolveRefWithBase", "call.ExpandResponse", "call.ExpandParameter", "call.meta-schema", "call.ExpandSchema(typed-root)", "call.ExpandSpec(shared-options,no-base)", "calls-with-reused-options",
 				"quiescent-cache-inspections", "consecutive-calls-on-same-urls-with-different-content"}
 		},
 		ChunkSize:   10,
